@@ -3,6 +3,7 @@ package main
 import (
 	"context"
 	"encoding/json"
+	"io"
 	"fmt"
 	"math/rand"
 	"net/http"
@@ -55,27 +56,44 @@ func scenarioHostile(t *traceWriter, rng *rand.Rand) {
 		cp     []byte
 		status int
 		tile   string // how tile / proof requests are answered: "404", "garbage", "empty", "huge"
+		// JSON feeders (rekor): raw bodies for api/v1/log and api/v1/log/proof, the tree ID the witness is configured
+		// with (default 7, the active shard of the default answer), and the feeders the case applies to ("" = all)
+		logJSON, proofJSON, treeID, only string
 	}
 	var cases []hcase
 	for _, sz := range []uint64{0, 6, 1 << 62, 1<<62 + 1, 1<<63 - 1, 1 << 63, 1<<64 - 1} {
 		for _, hl := range []int{0, 5, 32, 33} {
 			for _, tile := range []string{"404", "garbage"} {
-				cases = append(cases, hcase{fmt.Sprintf("signed.size=%d.hlen=%d.tile=%s", sz, hl, tile), mk(sz, make([]byte, hl)), 200, tile})
+				cases = append(cases, hcase{desc: fmt.Sprintf("signed.size=%d.hlen=%d.tile=%s", sz, hl, tile), cp: mk(sz, make([]byte, hl)), status: 200, tile: tile})
 			}
 		}
 	}
 	good := mk(9, make([]byte, 32))
 	cases = append(cases,
-		hcase{"truncated", good[:len(good)/2], 200, "404"},
-		hcase{"empty", []byte{}, 200, "404"},
-		hcase{"random", randHash(rng, 300), 200, "garbage"},
-		hcase{"oversized", append(append([]byte{}, good...), make([]byte, 3<<20)...), 200, "huge"},
-		hcase{"status500", good, 500, "404"},
-		hcase{"status404", good, 404, "404"},
-		hcase{"good.tiles-empty", good, 200, "empty"},
-		hcase{"good.tiles-huge", good, 200, "huge"},
-		hcase{"good.tiles-garbage", good, 200, "garbage"},
+		hcase{desc: "truncated", cp: good[:len(good)/2], status: 200, tile: "404"},
+		hcase{desc: "empty", cp: []byte{}, status: 200, tile: "404"},
+		hcase{desc: "random", cp: randHash(rng, 300), status: 200, tile: "garbage"},
+		hcase{desc: "oversized", cp: append(append([]byte{}, good...), make([]byte, 3<<20)...), status: 200, tile: "huge"},
+		hcase{desc: "status500", cp: good, status: 500, tile: "404"},
+		hcase{desc: "status404", cp: good, status: 404, tile: "404"},
+		hcase{desc: "good.tiles-empty", cp: good, status: 200, tile: "empty"},
+		hcase{desc: "good.tiles-huge", cp: good, status: 200, tile: "huge"},
+		hcase{desc: "good.tiles-garbage", cp: good, status: 200, tile: "garbage"},
 	)
+	// hostile JSON: every shape a JSON decoder can hand to code that expected an object with string fields
+	goodQ := strings.ReplaceAll(strings.ReplaceAll(string(good), "\\", "\\\\"), "\n", "\\n")
+	shard := fmt.Sprintf(`{"treeID":"8","treeSize":9,"signedTreeHead":"%s"}`, goodQ)
+	for i, lj := range []string{`null`, `[]`, `"x"`, `{}`, `7`, `{"inactiveShards":[null]}`, `{"inactiveShards":[null,` + shard + `]}`,
+		`{"inactiveShards":[` + shard + `,null]}`, `{"inactiveShards":null}`, `{"inactiveShards":{}}`, `{"inactiveShards":[[]]}`, `{"inactiveShards":[7,"x",true]}`,
+		`{"treeID":7}`, `{"treeID":null,"signedTreeHead":null}`, `{"treeID":"8","signedTreeHead":null,"inactiveShards":[{"treeID":null}]}`,
+		`{"treeSize":1e400,"treeID":"8"}`, `{"treeID":"8","signedTreeHead":"` + goodQ + `","inactiveShards":[{"treeID":"8","signedTreeHead":""}]}`,
+		strings.Repeat("[", 20000) + strings.Repeat("]", 20000), `{"treeID":"8"`, `{"treeID":"\ud800"}`} {
+		cases = append(cases, hcase{desc: fmt.Sprintf("json.log.%d", i), cp: good, status: 200, tile: "404", logJSON: lj, treeID: "8", only: "rekor"})
+	}
+	for i, pj := range []string{`null`, `{}`, `{"hashes":null}`, `{"hashes":[null]}`, `{"hashes":["zz"]}`, `{"hashes":[5]}`, `{"hashes":"x"}`, `{"hashes":{}}`,
+		`{"hashes":["00","","abc"]}`, `{"hashes":[` + strings.Repeat(`"00",`, 100000) + `"00"]}`, `[]`, `{"hashes":[[]]}`, `{"hashes":["` + strings.Repeat("ab", 1<<20) + `"]}`} {
+		cases = append(cases, hcase{desc: fmt.Sprintf("json.proof.%d", i), cp: good, status: 200, tile: "404", proofJSON: pj, only: "rekor"})
+	}
 	var hangs int32
 	type job struct {
 		fd  int
@@ -86,6 +104,9 @@ func scenarioHostile(t *traceWriter, rng *rand.Rand) {
 	var jobs []*job
 	for i := range feeders {
 		for _, c := range cases {
+			if c.only != "" && c.only != feeders[i].name {
+				continue
+			}
 			jobs = append(jobs, &job{fd: i, c: c})
 		}
 	}
@@ -112,7 +133,13 @@ func scenarioHostile(t *traceWriter, rng *rand.Rand) {
 					w.Write(c.cp)
 				case strings.HasSuffix(p, "api/v1/log"):
 					w.WriteHeader(c.status)
-					json.NewEncoder(w).Encode(map[string]interface{}{"signedTreeHead": string(c.cp), "treeID": "7", "treeSize": 9})
+					if c.logJSON != "" {
+						io.WriteString(w, c.logJSON)
+					} else {
+						json.NewEncoder(w).Encode(map[string]interface{}{"signedTreeHead": string(c.cp), "treeID": "7", "treeSize": 9})
+					}
+				case strings.HasSuffix(p, "api/v1/log/proof") && c.proofJSON != "":
+					io.WriteString(w, c.proofJSON)
 				default:
 					switch c.tile {
 					case "garbage":
@@ -132,6 +159,9 @@ func scenarioHostile(t *traceWriter, rng *rand.Rand) {
 			u := srv.URL + "/"
 			if fd.name == "rekor" {
 				u = srv.URL + "/?treeID=7"
+				if c.treeID != "" {
+					u = srv.URL + "/?treeID=" + c.treeID
+				}
 			}
 			if fd.name == "sumdb" {
 				u = srv.URL
